@@ -27,7 +27,8 @@ RULE = ('Hypothesis draws a (z,x,y) device mesh out of all factorisations with x
         'sparse+dense inputs; the sharded result, cropped, must equal the unsharded computation on the unpadded grid to '
         '1e-11 (algebra) / 1e-10 (tendencies, steps) relative to the largest entry of the reference leaf, every output '
         'must be finite including the padding, and padded modal entries must be exactly 0 for masked outputs. Direct '
-        'sharded_einsum / cumsum cases are compared with numpy. distinct = hash of the canonical JSON case; a case is '
+        'sharded_einsum / cumsum cases are compared with numpy. Two enumerated sub-checks (transforms_every_mesh: all 28 '
+        'factorisations x all unit vectors; step_every_mesh) exhaust the mesh quantifier. distinct = hash of the canonical JSON case; a case is '
         'non-trivial when the mesh has >= 2 devices and (for grid-level checks) the layout is padded.')
 ASSUMPTIONS = [
     'mesh axes x and y are 1 or even (contract of the two-way collectives: "axis_size must be 1 or even"); the vertical '
@@ -45,6 +46,11 @@ ASSUMPTIONS = [
     'filters are built on grids with total_wavenumbers >= 2 (with a single total wavenumber the normalisation k / k_max of '
     'every filter is 0/0 on any layout, padded or not)',
     'states handed to tendencies / steps have the top total wavenumber clipped and zero padding (admissible model states)',
+    'Grid.integrate is compared on nodal fields whose padding is zero (it sums the longitude padding; integrate is not one '
+    'of the operations the property lists and synthesised fields always have zero nodal padding); to_modal and '
+    'uv_nodal_to_vor_div_modal are additionally fed finite garbage in the nodal padding, which must be ignored',
+    'composite operators are fed independent O(1) inputs (no chaining through O(radius^2) intermediates), so that the '
+    'largest entry of the reference output is a valid error scale',
 ]
 MANIFEST = {
     'text': ('Exploration-level assurance that every sharded code path (two-way all-gather / reduce-scatter einsums, '
